@@ -188,5 +188,15 @@ func TestOrd(t *testing.T) {
 	runLaws(t, mk("ord.New(a).ThenComparing(FromCompare(c))",
 		ord.New[abc](fp.EqFunc[abc](func(x, y abc) bool { return x.a == y.a }), lessOf(byA)).ThenComparing(ord.FromCompare(func(x, y abc) int { return 3 * (x.c - y.c) })),
 		domABC(chain(byA, byC), tieRule)))
+	// The natural way to write "by age, then by name" over records: ord.New(eq.Given[rec](), lessByA) as the
+	// primary - its Eq (==) is finer than the ties of its Less. The primary alone is not the subject (its
+	// Eqv is the user's); the COMPOSITE primary.ThenComparing(secondary) must consult the secondary exactly
+	// on the primary's ties. (Seeded change: ord.New's Compare answered 1 for every non-Eqv pair.)
+	runLaws(t, mk("ord.New(eq.Given,a).ThenComparing(GivenField(c))",
+		ord.New[abc](fp.EqGiven[abc](), lessOf(byA)).ThenComparing(cfC),
+		domABC(chain(byA, byC), tieRule)))
+	runLaws(t, mk("ord.New(eq.Given,a).ThenComparing(b).ThenComparing(c)",
+		ord.New[abc](fp.EqGiven[abc](), lessOf(byA)).ThenComparing(lfB).ThenComparing(cfC),
+		domABC(chain(byA, byB, byC), tieRule)))
 	runLaws(t, mk("ord.Option(int).ThenComparing(const0)", ord.Option(gi).ThenComparing(refOrd[fp.Option[int]]{func(a, b fp.Option[int]) int { return 0 }}), dOpt))
 }
